@@ -131,6 +131,13 @@ impl From<Qcow2IoBuf<RefTableEntry>> for RefTable {
 
 impl_top_table_traits!(RefTable, RefTableEntry, data);
 
+#[cfg(feature = "verif-hooks")]
+impl RefTable {
+    pub fn verif_dirty_blocks(&self) -> Vec<u32> {
+        self.dirty_blocks.borrow().iter().copied().collect()
+    }
+}
+
 #[derive(Copy, Clone, Default, Debug)]
 pub struct RefBlockEntry(u64);
 
